@@ -239,10 +239,12 @@ def replay(path):
         print(out[-2000:])
         return 1
     try:
-        src = (C.json.load(open(path)).get("input") or {}).get("source")
+        rp = C.json.load(open(path))
+        src = (rp.get("input") or {}).get("source")
+        counts_text = str(rp.get("key", "")).startswith("c02:count:") and bool((rp.get("input") or {}).get("output"))
     except (OSError, ValueError, AttributeError):
-        src = None
-    if src in ("counts", "counts-gen"):
+        src, counts_text = None, False
+    if src in ("counts", "counts-gen") or counts_text:
         rc, out = C.sh([os.path.join(C.BIN, "c02counts"), "replay", path], timeout=600)
         print(out)
         return 1 if rc != 0 else 0
